@@ -38,7 +38,7 @@ func runStorm(s *Storm) (err error, inconclusive string) {
 	var mu sync.Mutex
 	served, dropped := 0, 0
 	var stormStart time.Time
-	fp.ListHook = func(w http.ResponseWriter, r *http.Request) bool {
+	fp.SetListHook(func(w http.ResponseWriter, r *http.Request) bool {
 		mu.Lock()
 		if served < s.Healthy {
 			served++
@@ -65,7 +65,7 @@ func runStorm(s *Storm) (err error, inconclusive string) {
 		}
 		conn.Close()
 		return true
-	}
+	})
 	meta := vh.NewFakeMeta()
 	defer meta.Close()
 	backend := vh.NewRawBackend(nil)
